@@ -633,6 +633,7 @@ static void run(long i, vh_rng *r)
     if (lang == VD_EN && vh_chance(r, 0.08)) c.cfg.samprate = 8000;
     if (vh_chance(r, 0.1)) c.cfg.cmn = VH_PICK(r, ((const char *[]){ "batch", "none" }));
     if ((MON == M_C14 || MON == M_C03) && vh_chance(r, 0.15)) c.cfg.frate = VH_PICK(r, ((int[]){ 50, 200 }));
+    if ((MON == M_C01 || MON == M_C03) && vh_chance(r, 0.1)) { c.cfg.skip_tmat = 1; vh_count("scenarios_with_skip_transitions", 1); }   /* Bakis topology: states can be skipped */
     c.frate = c.cfg.frate; c.r = r;
     c.d = vd_decoder(&c.cfg);
     if (!c.d) { vh_inconc("decoder_init failed"); return; }
